@@ -184,6 +184,32 @@ class MemWFile(io.BytesIO):
         pass
 
 
+class ReadsBeyondRequest(BaseException):
+    """the server asked the connection for bytes a client that has sent a complete request never sends: on a real
+    connection kept open by the client this read blocks until the socket timeout, or for ever"""
+
+
+class OpenRFile(io.BytesIO):
+    """the receiving side of a connection whose client has sent `request` and keeps the connection open"""
+
+    def readline(self, size=-1):
+        data = super().readline(size)
+        if not data.endswith(b"\n") and (size is None or size < 0 or len(data) < size):
+            raise ReadsBeyondRequest("readline() after %d bytes" % self.tell())
+        return data
+
+    def read(self, n=-1):
+        if n is None or n < 0:
+            raise ReadsBeyondRequest("read() to end of stream")
+        data = super().read(n)
+        if len(data) < n:
+            raise ReadsBeyondRequest("read(%d) after %d bytes" % (n, self.tell()))
+        return data
+
+    def readlines(self, hint=-1):
+        raise ReadsBeyondRequest("readlines()")
+
+
 class MockRequest(socket.socket):
     def __init__(self, rfile, wfile):  # noqa: no super().__init__ on purpose (no real socket)
         self._rfile = rfile
@@ -303,7 +329,7 @@ def _gelog_recorder(exception, protocol=None, handler=None):
 
 
 def serve(config, request, tls=False, wfile=None, realfd=False, reset=True, server=None,
-          keep_protocol=False):
+          keep_protocol=False, open_conn=False):
     """Run one connection through GopherRequestHandler.handle(), exactly as socketserver would,
     with the socket replaced.  `request` = all bytes the client sends."""
     if reset:
@@ -318,7 +344,7 @@ def serve(config, request, tls=False, wfile=None, realfd=False, reset=True, serv
         GopherExceptions.log = _gelog_recorder
     if server is None:
         server = ServerStub(config)
-    rfile = io.BytesIO(request)
+    rfile = OpenRFile(request) if open_conn else io.BytesIO(request)
     own_w = wfile is None
     if own_w:
         wfile = WFile() if realfd else MemWFile()
